@@ -296,7 +296,7 @@ func runLinCase(c linCase) outcome {
 						tok := int(tokCtr.Add(1))
 						rec.add(vh.HOp{Kind: "miss", Key: k, Client: g, Call: call, Ret: entryT})
 						rec.add(vh.HOp{Kind: "begin", Key: k, Client: g, Token: tok, Call: call, Ret: entryT})
-						rec.add(vh.HOp{Kind: "finish", Key: k, Client: g, Token: tok, Val: loaded, OutErr: fail, Call: exitT, Ret: ret, MayDrop: c.Bound != 0})
+						rec.add(vh.HOp{Kind: "finish", Key: k, Client: g, Token: tok, Val: loaded, OutErr: fail, Call: exitT, Ret: ret, MayDrop: true})
 						loadMu.Lock()
 						loads[loaded] = &loadInfo{call, ret}
 						loadMu.Unlock()
